@@ -106,7 +106,7 @@ def data_for(rng, fields_types):
         if col['variant'].startswith('category') or col['variant'] in ('dateobj', 'float32'):
             col['variant'] = {'string': 'object', 'date': 'datetime64[us]', 'real': 'float64'}[col['type']]
         cols[nm] = C.normalise_column(col)
-    return C.frame_of(cols)
+    return C.frame_of(cols), cols
 
 
 def verdicts(df, arg):
@@ -215,8 +215,31 @@ def run(ctx):
                          % (first_diff(strip_meta(t1), strip_meta(clean)), first_diff(strip_meta(clean), strip_meta(t1))))
             # ---- verdicts: dict, path and re-serialised object agree on generated data
             try:
-                df = data_for(rng, types)
+                df, dcols = data_for(rng, types)
                 va = verdicts(df, {'fields': noisy})
+                # the loaded bounds mean what the given bounds mean (dates and precision dictionaries included)
+                if source == 'hand':
+                    for nm, d in fields.items():
+                        for k in ('min', 'max'):
+                            if k not in d or nm not in dcols or nm not in va[0] or k not in va[0][nm]:
+                                continue
+                            gv = d[k]
+                            spec = dict(gv) if isinstance(gv, dict) else {'value': gv}
+                            if spec.get('value') is None:
+                                continue
+                            if dcols[nm]['type'] == 'date':
+                                if not isinstance(spec['value'], str):
+                                    continue
+                                spec['value'] = datetime.datetime.fromisoformat(spec['value'])
+                            elif isinstance(spec['value'], str) and dcols[nm]['type'] != 'string':
+                                continue
+                            if dcols[nm]['type'] == 'string' or isinstance(d.get('type'), list):
+                                continue
+                            want = C.meaning(k, spec, dcols[nm], 0.0, False)
+                            if va[0][nm][k] is not want:
+                                ctx.fail(dict(case, field=nm, kind=k, data=repr(dcols[nm]['cells'])[:300]),
+                                         'after loading, %s=%r on %r is reported %r, its documented meaning on this data is %r'
+                                         % (k, gv, nm, va[0][nm][k], want))
                 vb = verdicts(df, path)
                 vc = verdicts(df, json.loads(text))
                 if not (va == vb == vc):
